@@ -105,14 +105,23 @@ func (s StudentsT) Quantile(p float64) float64 {
 	if p == 0.5 {
 		return s.Mu
 	}
-	var y float64
+	// q is the probability of the tail beyond |y|.
+	q := p
 	if p > 0.5 {
-		// Know t > 0
-		t := mathext.InvRegIncBeta(s.Nu/2, 0.5, 2*(1-p))
-		y = math.Sqrt(s.Nu * (1 - t) / t)
+		q = 1 - p
+	}
+	var y float64
+	if q > 0.25 {
+		// Close to the median t is close to 1 and 1-t cancels:
+		// invert the complementary function for u = 1-t instead.
+		u := mathext.InvRegIncBeta(0.5, s.Nu/2, 1-2*q)
+		y = math.Sqrt(s.Nu * u / (1 - u))
 	} else {
-		t := mathext.InvRegIncBeta(s.Nu/2, 0.5, 2*p)
-		y = -math.Sqrt(s.Nu * (1 - t) / t)
+		t := mathext.InvRegIncBeta(s.Nu/2, 0.5, 2*q)
+		y = math.Sqrt(s.Nu * (1 - t) / t)
+	}
+	if p < 0.5 {
+		y = -y
 	}
 	// Convert out of standard normal
 	return y*s.Sigma + s.Mu
